@@ -25,8 +25,56 @@ func (m *Machine) guardRegister(mu *value, key interface{}, name string) {
 	m.guards[key] = &guardInfo{mu: mu, name: name}
 }
 
+// Isolation monitor (verifIsolationOn / verifIsolationOff): the harness
+// declares that the goroutines running while the monitor is on share no
+// mutable state -- they are independent users of the code under test that
+// never synchronise with each other.  Then a memory cell or map that one
+// goroutine writes and another one reads or writes (outside any mutex) is
+// hidden shared state and a data race, whatever the schedule: the two
+// accesses are unordered.  Confirmed natively by the race detector on the
+// harness's stress section.
+type isoRec struct {
+	first   *G
+	written bool // by first
+	shared  bool // read by more than one goroutine
+}
+
+func (fr *frame) isoCheck(key interface{}, write bool) {
+	m := fr.m
+	if fr.g == nil || fr.g.nlocks > 0 {
+		return
+	}
+	if m.iso == nil {
+		m.iso = map[interface{}]*isoRec{}
+	}
+	rec := m.iso[key]
+	if rec == nil {
+		m.iso[key] = &isoRec{first: fr.g, written: write}
+		return
+	}
+	if rec.first == fr.g && !rec.shared {
+		rec.written = rec.written || write
+		return
+	}
+	// a second goroutine (or a write after several readers)
+	if write || rec.written {
+		label := "state-shared-between-independent-goroutines"
+		for _, v := range m.res.Violations {
+			if v.Label == label {
+				return
+			}
+		}
+		m.reportRaceDetail(label, fr.pos(), "a cell or map written by one goroutine is used by another one that shares no lock and no ordering with it, at ")
+		return
+	}
+	rec.shared = true
+}
+
 func (fr *frame) guardCheck(key interface{}, write bool) {
 	m := fr.m
+	if m.isoOn {
+		fr.isoCheck(key, write)
+	}
 	if !m.guardOn || m.guards == nil {
 		return
 	}
@@ -60,12 +108,16 @@ func (fr *frame) guardCheck(key interface{}, write bool) {
 
 // reportRace records a lock-discipline violation on the current path.
 func (m *Machine) reportRace(label, pos string) {
+	m.reportRaceDetail(label, pos, "access without the protecting lock at ")
+}
+
+func (m *Machine) reportRaceDetail(label, pos, detail string) {
 	st := m.st()
 	excl := m.exclusion()
 	r, mod := m.query(st.Not(excl))
 	if r == "sat" {
 		m.res.Violations = append(m.res.Violations, Violation{Harness: m.h.Name, Kind: "race", Label: label,
-			Detail: "access without the protecting lock at " + pos, Inputs: m.inputsFrom(mod), Params: m.paramsCopy(), Pos: pos})
+			Detail: detail + pos, Inputs: m.inputsFrom(mod), Params: m.paramsCopy(), Pos: pos})
 	} else if r == "unknown" {
 		m.res.Unknown++
 	}
